@@ -1,9 +1,161 @@
-import AasVerif.Model.Expr.Infer
+import AasVerif.Lemmas.InferSafe
 import AasVerif.Gen.Infer
+/-!
+# C07 — type-checked invariants cannot fail at run time
+
+`infer` (`Model/Expr/Infer.lean`) is the faithful model of `type_inference._Inferrer`, `eval`
+(`Model/Expr/Eval.lean`, shared with C08) the Python meaning of an invariant, `HasTy` /
+`Conforms` (`Model/Expr/Conforms.lean`) "the instance conforms to the declared types".
+-/
 namespace AasVerif.Props.C07
 open AasVerif AasVerif.Expr
 
-/-- placeholder, replaced below by the real theorems -/
-theorem strip_nonopt (F : Facts) (k : Text) (p : Prim) : strip F k (.prim p) = .prim p := rfl
+/-! ## Full strength (FALSE of the faithful model)
+
+    sound : inferC Γ e = ok τ → Conforms ρ Γ → eval ρ e ∈ {val v | v : τ} ∪ {indexError}
+-/
+
+/-- The property as stated: an accepted invariant evaluates, on a conforming instance, to a
+value of the inferred type, or raises `IndexError`. -/
+def Sound : Prop :=
+  ∀ (D : Decls) (self : Text) (ρ : Env) (e : Expr) (τ : Ty),
+    inferC (TEnv.forSelf D self) e = .ok τ → D.WF → Conforms ρ (TEnv.forSelf D self) → EnvSafe ρ →
+    CallsConform ρ (TEnv.forSelf D self) →
+    eval ρ e = .indexError ∨ ∃ v, eval ρ e = .val v ∧ HasTy D v τ
+
+/-! ### The witness `self.s < 1` with `s : str` -/
+
+def t (s : String) : Text := Text.ofString s
+
+/-- one class `C` with one property `s : str` -/
+def D0 : Decls :=
+  { ours := [(t "C", .cls { props := [(t "s", .prim .str)], methods := [], descendants := [] })], fns := [], consts := [] }
+
+/-- `self.s < 1` -/
+def e0 : Expr := .cmp (.member (.name (t "self")) (t "s")) .lt (.const (.int 1))
+
+def fops0 : FloatOps :=
+  { cmp := fun _ _ _ => .typeError, arith := fun _ _ _ => .typeError, isZero := fun _ => false, fmt := fun r => r }
+
+/-- `self = C(s="a")` -/
+def ρ0 : Env :=
+  { vars := [(t "self", .inst 0 (t "C") [(t "s", .str (t "a"))])], funs := fun _ => none, meths := fun _ _ => none,
+    fops := fops0, fmtOther := fun _ => .otherError }
+
+/-- the inferrer accepts the witness with type `bool` … -/
+theorem witness_accepted : inferC (TEnv.forSelf D0 (t "C")) e0 = .ok .bool := by decide
+
+/-- … and CPython raises `TypeError` on it -/
+theorem witness_typeError : (match eval ρ0 e0 with | .typeError => true | _ => false) = true := by decide
+
+theorem D0_wf : D0.WF := by
+  intro c cd p τ hc hp
+  simp only [Decls.findOur, D0, assoc] at hc
+  split at hc
+  · cases hc
+    simp only [assoc] at hp
+    split at hp
+    · cases hp; rfl
+    · cases hp
+  · cases hc
+
+theorem scope0 : (TEnv.forSelf D0 (t "C")).scope =
+    [(selfName, .our (t "C")), (lenName, .builtin lenName (.prim .length))] := rfl
+
+theorem ρ0_conforms : Conforms ρ0 (TEnv.forSelf D0 (t "C")) := by
+  intro x τ h
+  simp only [TEnv.find, scope0, assoc] at h
+  split at h
+  · cases h
+    right
+    rename_i hx
+    refine ⟨.inst 0 (t "C") [(t "s", .str (t "a"))], by simp [ρ0, lookup, ← hx, selfName, t, Text.ofString], ?_⟩
+    refine HasTy.inst (cd := { props := [(t "s", .prim .str)], methods := [], descendants := [] }) rfl ?_ ?_
+    · intro p τ hp
+      simp only [assoc] at hp
+      split at hp
+      · rename_i hps; simp [lookup, ← hps]
+      · cases hp
+    · intro p τ w hp hw
+      simp only [assoc] at hp
+      split at hp
+      · rename_i hps
+        cases hp
+        simp [lookup, ← hps] at hw
+        subst hw
+        exact HasTy.str _
+      · cases hp
+  · split at h
+    · cases h; left; rfl
+    · cases h
+
+theorem ρ0_safe : EnvSafe ρ0 :=
+  { funs := by intro n f vs h; simp [ρ0] at h
+    meths := by intro r n f vs h; simp [ρ0] at h
+    cmp := by intro op a b; simp [ρ0, fops0]
+    arith := by intro ad a b; simp [ρ0, fops0]
+    fmt := by intro v; simp [ρ0] }
+
+theorem ρ0_calls : CallsConform ρ0 (TEnv.forSelf D0 (t "C")) :=
+  { impl := by
+      intro n m ret h
+      simp only [TEnv.find, scope0, assoc] at h
+      repeat' split at h
+      all_goals cases h
+    builtin := by
+      intro n m ret h
+      simp only [TEnv.find, scope0, assoc] at h
+      repeat' split at h
+      all_goals cases h
+      exact ⟨_, rfl⟩
+    funs := by intro n m ret f vs v _ h; simp [ρ0] at h
+    meths := by intro r c cd n ret f vs v _ _ _ h; simp [ρ0] at h }
+
+/-- **The full-strength statement is false**: `self.s < 1` with `s : str` is accepted and raises
+`TypeError` on `self = C(s="a")`  (finding `C07:unchecked:comparison-operand-types`). -/
+theorem sound_full_fails : ¬ Sound := by
+  intro h
+  have hw := witness_typeError
+  rcases h D0 (t "C") ρ0 e0 .bool witness_accepted D0_wf ρ0_conforms ρ0_safe ρ0_calls with h | ⟨v, hv, _⟩
+  · rw [h] at hw; simp at hw
+  · rw [hv] at hw; simp at hw
+
+/-! ## What the inferrer does enforce: no `AttributeError` on `None`
+
+The narrowing logic (facts from `is not None` conjuncts flowing through `and` chains and
+implication antecedents, from `is None` disjuncts through `or`, keyed by canonical
+representations) is sound. -/
+
+/-- **none_safety** (fragment without `any`/`all`): an accepted invariant never dereferences
+`None` on a conforming instance — *without* any assumption on operand types, boolean contexts
+or call arguments.  `key` is the inferrer's key of a node (the real one: `canon`); what is
+needed of it is injectivity (two different expressions never share a key). -/
+theorem none_safety_noquant {key : Expr → Text} (hk : Function.Injective key)
+    (Γ : TEnv) (ρ : Env) (e : Expr) (τ : Ty) (hq : noQuant e = true)
+    (hwf : Γ.decls.WF) (hconf : Conforms ρ Γ) (hsafe : EnvSafe ρ) (hcalls : CallsConform ρ Γ)
+    (h : infer key Γ [] e = .ok τ) : eval ρ e ≠ .noneDeref :=
+  (safe_expr hk e Γ [] ρ τ hq
+    { conf := hconf, wf := hwf, safe := hsafe, calls := hcalls, facts := by intro e he; simp at he } h).1
+
+/-! ## The tables read off the source agree with the model -/
+
+/-- the `self.errors.append` sites of `_Inferrer`, per method, are the ones the model was written from
+(a check added to or removed from the inferrer changes this table) -/
+theorem errSites_methods :
+    Gen.Infer.errSites = [("_transform_add_or_sub", 5), ("_transform_any_or_all", 1), ("transform_and", 1),
+      ("transform_assignment", 1), ("transform_comparison", 2), ("transform_for_each", 3), ("transform_for_range", 5),
+      ("transform_formatted_value", 1), ("transform_function_call", 1), ("transform_implication", 1),
+      ("transform_index", 4), ("transform_is_in", 2), ("transform_is_none", 1), ("transform_is_not_none", 1),
+      ("transform_member", 5), ("transform_method_call", 2), ("transform_name", 1), ("transform_not", 1),
+      ("transform_or", 1)] := by decide
+
+/-- `_needs_no_brackets` of the source is the model's `needsNoBrackets` -/
+theorem needsNoBrackets_table :
+    Gen.Infer.needsNoBrackets = ["All", "Any", "Constant", "FunctionCall", "JoinedStr", "Member", "MethodCall", "Name"] := by
+  decide
+
+theorem numeric_tables :
+    Gen.Infer.indexTypes = ["INT", "LENGTH"] ∧ Gen.Infer.rangeTypes = ["INT", "LENGTH"] ∧
+      Gen.Infer.arithTypes = ["FLOAT", "INT", "LENGTH"] := by decide
 
 end AasVerif.Props.C07
